@@ -34,7 +34,7 @@ def load_corpus(pid):
 
 
 HOOK_COMMITS = ["29e0810", "739e797", "cf39cf9", "652b91e", "e71d18b", "87e24fd", "a0b177c", "d307356", "a2cf7a8", "32ea923",
-                "c3212bb", "2017279", "f82d6ac", "f4f6e91", "3d9871e", "eae7527", "430b815", "50578be", "8cabe9e", "dbfd1e8", "b5be554", "2061294", "5e81022", "fbbe690", "b82c48c", "4e87dc5"]
+                "c3212bb", "2017279", "f82d6ac", "f4f6e91", "3d9871e", "eae7527", "430b815", "50578be", "8cabe9e", "dbfd1e8", "b5be554", "2061294", "5e81022", "fbbe690", "b82c48c", "4e87dc5", "3e170f4"]
 NOT_CLAIMED = {}
 
 
@@ -227,6 +227,12 @@ class C01(ResolveSpec):
             if i % 5 == 4:
                 # a waived crate (nothing required of it) whose own policy still demands something of its dependency
                 gen.boost_waived_parent(rng, c)
+            if i % 10 == 3:
+                # an exemption that lists no criteria certifies nothing
+                gen.boost_empty_exemption(rng, c)
+            if i % 10 == 8:
+                # two trusted entries for one publisher: each counts for its own criteria
+                gen.boost_two_trusted(rng, c)
             cases.append(c)
         return cases
 
@@ -302,6 +308,16 @@ class C02(ResolveSpec):
                             "non-trivial = the verdict is FailForVet with at least one failing criterion, or Success")
     projection_doc = "conclusion kind; failure list with criteria bitsets; has_errors; JSON report failures (names, versions, minimal criteria)"
     assumptions = C01.assumptions
+
+    def gen_cases(self, rng, n):
+        cases = []
+        for i in range(n):
+            c = gen.gen_resolve_case(rng, f"g{i}", **self.gen_kwargs)
+            if i % 8 == 5:
+                # a crate certified only by the SECOND of two trusted entries naming its publisher
+                gen.boost_two_trusted(rng, c)
+            cases.append(c)
+        return cases
 
     def project(self, rep, o, model=None):
         return {"kind": rep.kind, "failures": sorted(rep.failures().items()), "reqs": rep.reqs}
@@ -390,6 +406,8 @@ class C06(ResolveSpec):
             else:
                 c = gen.gen_resolve_case(rng, f"g{i}")
                 gen.boost_grants(rng, c)
+                if i % 6 == 4:
+                    gen.boost_two_trusted(rng, c)
             cases.append(c)
         return cases
 
@@ -586,7 +604,9 @@ class C05(ResolveSpec):
     rule = ("criteria tables with 2-4 custom criteria (chains, diamonds, customs implying built-ins); every base store is paired with "
             "rewritten stores (all non-violation lists replaced by their closure / minimal set / shuffled+duplicated; records for a "
             "crate outside the graph added); non-trivial = the base store has a custom criterion with a non-empty implies list and a "
-            "verdict other than all-fail")
+            "verdict other than all-fail. History stage: the real `certify` in generated command histories plus three deterministic "
+            "histories folding adjacent git-revision deltas (weaker / stronger / equal prior criteria): every audit certify writes "
+            "denotes the criteria asked for, a folded prior audit was recorded for the same set")
     projection_doc = "implied-criteria set of every criterion; requirement vector; conclusion; failures; per pair search success"
     quick_n = 60
     thorough_n = 800
@@ -607,6 +627,30 @@ class C05(ResolveSpec):
                 v["store_struct"] = rewrite_store(rng, base["store_struct"], how)
                 out.append(gen.finalize(v))
         return out
+
+    def model_modules_paths(self):
+        return ["Show", "ShowUpdate"]
+
+    def run(self, rng, tier, work, model_ok=True, ncases=None, replay=None):
+        if replay:
+            with open(replay) as f:
+                r = json.load(f)
+            if (r.get("case", r)).get("kind") == "history":
+                return _C05Hist().run(rng, tier, work, model_ok, ncases, replay)
+        res = super().run(rng, tier, work, model_ok, ncases, replay)
+        if replay:
+            return res
+        # "every criteria list cargo-vet writes denotes the set it computed", for the one command that writes an audit:
+        # command histories through the real `certify` (incl. the folding of adjacent git-revision deltas)
+        hs = _C05Hist()
+        n = 12 if tier == "quick" else 150
+        r2 = hs.run(__import__("random").Random(rng.random()), tier, os.path.join(work, "hist"), model_ok, ncases=n)
+        res["cases"] += r2["cases"]
+        res["mismatches"] += r2["mismatches"]
+        res["oracle_failures"] += r2["oracle_failures"]
+        res["stats"]["certify_histories"] = r2.get("stats", {})
+        res["stats"]["compared"] = res["stats"].get("compared", 0) + r2.get("stats", {}).get("compared", 0)
+        return res
 
     def model_expr(self, obs):
         mi = obs["model_input"]
@@ -705,7 +749,14 @@ class C03(ResolveSpec):
         return ["Show", "ShowReq"]
 
     def gen_cases(self, rng, n):
-        return [gen.gen_req_case(rng, f"g{i}") for i in range(n)]
+        out = []
+        for i in range(n):
+            c = gen.gen_req_case(rng, f"g{i}")
+            if i % 6 == 5:
+                # a crates.io package sharing its name with a path package whose (unversioned) policy says audit-as-crates-io = false
+                gen.boost_overlap_unversioned(rng, c)
+            out.append(c)
+        return out
 
     def model_expr(self, obs):
         mi = obs["model_input"]
@@ -1209,7 +1260,10 @@ class C08(SimpleSpec):
     rule = ("seeded graphs where a quarter of the crates.io packages are turned into path/git packages (several versions of one name "
             "with different sources), random descriptions/repositories; policy tables with audit-as-crates-io true/false/absent, "
             "versioned and unversioned entries, missing versions, stray crates and versions, dependency-criteria; a mock crates.io "
-            "that knows 70% of the names with matching / non-matching / absent metadata; non-trivial = at least one pre-check error class fires")
+            "that knows 70% of the names with matching / non-matching / absent metadata; non-trivial = at least one pre-check error class fires. "
+            "Stage 2 (verdict): generated path crates declared audit-as-crates-io whose version crates.io does not serve, with 1-3 served "
+            "versions below and/or above it; the stand-in (nearest earlier, else next later) audited -> must pass unlocked and, on the "
+            "recorded choice, --locked even after crates.io has published the exact version; only another served version audited -> must fail")
     projection_doc = "third-party classification of every package; the five error lists of the two pre-checks (as sets of (crate, version))"
     assumptions = ["mock crates.io"]
 
@@ -1299,6 +1353,50 @@ class C08(SimpleSpec):
                 elif e.get("audit-as-crates-io") is not None and not [p for p in cands if p["source"] != "registry"]:
                     out.append(f"pre-checks pass although audit-as-crates-io entry {key!r} matches no path/git package")
         return out
+
+    def run(self, rng, tier, work, model_ok=True, ncases=None, replay=None):
+        if replay:
+            try:
+                rc = json.load(open(replay)).get("case") or {}
+            except Exception:
+                rc = {}
+            if rc.get("kind") != "resolve":
+                return super().run(rng, tier, work, model_ok, ncases, replay)
+            rc.setdefault("id", "replay")
+            cases = [rc]
+            res = {"cases": [rc["id"]], "mismatches": [], "oracle_failures": [], "samples": [], "findings_seen": {}, "stats": {}}
+        else:
+            res = super().run(rng, tier, work, model_ok, ncases, replay)
+            # stage 2: the VERDICT for an unpublished version — vetted as the nearest earlier (else next later) published
+            # version, unlocked and (recorded choice) locked
+            rng2 = __import__("random").Random(rng.random())
+            cases = [gen.gen_unpublished_verdict_case(rng2, f"u{i}") for i in range(30 if tier == "quick" else 200)]
+        obs = vetlib.run_harness([gen.strip_struct(c) for c in cases], os.path.join(work, "impl-unpub"))
+        tags = {}
+        for c in cases:
+            o = obs.get(c["id"]) or {}
+            uv = c.get("unpublished_verdict") or {}
+            if not uv:
+                continue
+            tags[uv["variant"]] = tags.get(uv["variant"], 0) + 1
+            what = None
+            if o.get("status") != "ok":
+                what = f"the run did not reach a verdict ({o.get('status')}: {o.get('error_kind') or o.get('error', '')[:80]})"
+            else:
+                r = O.Report(o["obs"])
+                nodes = o["tables"]["nodes"]
+                failing = sorted(nodes[i].split(":")[0] for i in r.failures())
+                if uv["variant"] == "other":
+                    if r.kind == "success" or "fpxxx" not in failing:
+                        what = (f"fpxxx {uv['version']} (not on crates.io, which serves {uv['served']}) passes with an audit of "
+                                f"{uv['audited']} alone; it is vetted as {uv['stands_in']}")
+                elif r.kind != "success":
+                    what = (f"fpxxx {uv['version']} (not on crates.io, which serves {uv['served']}) is vetted as {uv['stands_in']}, "
+                            f"which is fully audited, yet the {c['mode']} run reports {r.kind} {failing}")
+            if what:
+                res["oracle_failures"].append({"id": c["id"], "what": what, "finding": None, "case": gen.strip_struct(c) | {"unpublished_verdict": uv}})
+        res["stats"]["unpublished_verdict_cases"] = tags
+        return res
 
 
 
@@ -1518,6 +1616,13 @@ class C17(SimpleSpec):
             c["kind"] = "suggest"
             c["suggest_network"] = c.get("mode") == "unlocked"
             c.setdefault("registry", {"users": [], "packages": {}, "meta": {}})
+            if c["suggest_network"] and i % 4 == 1:
+                # crates.io has YANKED some of the versions in use (they are still published and downloadable)
+                inuse = {(p["name"], p["version"]) for p in c["graph"]["packages"] if p["source"] == "registry"}
+                for n_, l_ in c["registry"]["packages"].items():
+                    for v_ in l_:
+                        if (n_, v_["version"]) in inuse and rng.random() < 0.7:
+                            v_["yanked"] = True
             out.append(c)
         return out
 
@@ -2191,7 +2296,7 @@ class C19(Spec):
             ref_ok = steps[2]["result"] == "ok"
             dist[tuple(s["result"].split()[0] for s in steps)] += 1
             if case.get("truncate_at") or any(e["path"].startswith(("..", "/")) or ".." in e["path"] or e["path"].endswith(".cargo-ok")
-                                               or e.get("kind") in ("symlink", "hardlink") or e.get("long_name") for e in case["entries"]):
+                                               or e.get("kind") in ("symlink", "hardlink", "contiguous") or e.get("long_name") for e in case["entries"]):
                 nontrivial += 1
 
             def fail(what):
@@ -2252,7 +2357,7 @@ class C19(Spec):
             real = e.get("long_name") or e["path"]       # the name the archive reader reports for the entry
             comps = [{"_c": "CParent", "a": []} if c == ".." else {"_c": "CNormal", "a": [nid(c)]}
                      for c in real.split("/") if c not in ("", ".")]
-            kind = {"file": "EFile", "dir": "EDir"}.get(e.get("kind", "file"), "ELink")
+            kind = {"file": "EFile", "contiguous": "EFile", "dir": "EDir"}.get(e.get("kind", "file"), "ELink")
             ar.append({"_c": "Build_entry", "a": [real.startswith("/"), comps, {"_c": kind, "a": []},
                                                   cid_of("file:" + e.get("content", "")[:40])]})
 
@@ -2314,6 +2419,10 @@ class HistorySpec(Spec):
                 [gen.scenario_two_versions_exemption(f"tv{k}", k) for k in range(2)] +
                 [gen.scenario_stale_unpublished(f"su{k}", k) for k in range(2)] +
                 [gen.scenario_violation_before_audit(f"vb{k}", k) for k in range(2)] +
+                [gen.scenario_certify_collapse(f"cc{k}", k) for k in range(3)] +
+                [gen.scenario_unmapped_before_needed(f"um{k}", k) for k in range(2)] +
+                [gen.scenario_duplicate_exemptions(f"de{k}", k) for k in range(2)] +
+                [gen.scenario_trusted_vs_recorded_audit(f"tr{k}", k) for k in range(2)] +
                 [gen.gen_history(rng, f"h{i}") for i in range(n)])
 
     def run(self, rng, tier, work, model_ok=True, ncases=None, replay=None):
@@ -2326,6 +2435,19 @@ class HistorySpec(Spec):
         else:
             cases = load_corpus(self.pid) + self.gen_cases(rng, n)
         return hist.run_histories(self, cases, work, model_ok=model_ok)
+
+
+class _C05Hist(HistorySpec):
+    """the history stage of the C05 check: the audits `certify` writes denote the criteria that were asked for / recorded"""
+    pid = "C05"
+    oracle_fn = staticmethod(hist.oracle_c05)
+
+    def gen_cases(self, rng, n):
+        return ([gen.scenario_certify_collapse(f"cc{k}", k) for k in range(3)] +
+                [gen.gen_history(rng, f"h{i}") for i in range(n)])
+
+    def step_nontrivial(self, st):
+        return st.cls == "certify" and st.outcome == "ok"
 
 
 class _C12Hist(HistorySpec):
@@ -2548,7 +2670,8 @@ class C18(SimpleSpec):
             if u["role"] == "writer" and u["outcome"] == "ok":
                 before.append(u["user"])
         ncache = sum(1 for u in users if u["role"] == "cache" and u["outcome"] == "ok")
-        if ncache and o["cache_count"] != ncache:
+        cleaners = any(u_.get("clean") for u_ in case["users"])       # `gc --clean` resets the command history
+        if ncache and not cleaners and o["cache_count"] != ncache:
             out.append(f"the cache counter is {o['cache_count']} after {ncache} read-increment-write users")
         return out
 
